@@ -13,6 +13,9 @@ every memo entry that mentions the address – in either key position that holds
 it, otherwise the new set inherits the dead one's answer.  The obligation below is re-checked against the deleter lambdas
 as they are written in the sources now. -/
 
+/-- the three deleter lambdas and the memo-table declarations were found in the shape the translator reads -/
+theorem wiring_parsed : wiringErrors = [] := by decide
+
 /-- the deleter invalidates every (memo table, key position) that holds a macro-state address -/
 def wiringOk (w : String × List (String × List Nat) × List (String × Nat) × Nat) : Bool :=
   w.2.1.all (fun t => t.2.all (fun k => w.2.2.1.contains (t.1, k)))
